@@ -1091,8 +1091,12 @@ func (c *Ctx) specCall(x *SCall) *Val {
 			at, btm := c.specUnify(a.T, b.T)
 			return Scalar(StructEq(at, btm), bt)
 		case "floor":
+			// same shape as the code's int(math.Floor(x))
 			v := c.evalSpec(x.Args[0])
-			return Scalar(App(SInt, "to_int", ToReal(v.T)), nil)
+			return Scalar(App(SInt, "trunc", App(SReal, "floorR", ToReal(v.T))), nil)
+		case "ceil":
+			v := c.evalSpec(x.Args[0])
+			return Scalar(App(SInt, "trunc", App(SReal, "ceilR", ToReal(v.T))), nil)
 		case "abs":
 			v := c.evalSpec(x.Args[0])
 			if v.T.Sort == SInt {
